@@ -38,6 +38,8 @@ fn err_kind(e: &asefile::AsepriteParseError) -> &'static str {
 
 pub const F_EXERCISE: u32 = 1;
 pub const F_DENY: u32 = 2;
+/// load through AsepriteFile::read_file from a scratch file instead of AsepriteFile::read
+pub const F_READFILE: u32 = 4;
 
 fn run_case(data: Arc<Vec<u8>>, flags: u32, seed: u64, out: Arc<Mutex<std::io::Stdout>>) {
     let emit = move |v: Value| {
@@ -46,11 +48,24 @@ fn run_case(data: Arc<Vec<u8>>, flags: u32, seed: u64, out: Arc<Mutex<std::io::S
         let _ = o.flush();
     };
     let hints = crate::scan::scan(&data).hints;
-    alloc::open_window(flags & F_DENY != 0);
-    let mut rd = CountingReader { data: &data, pos: 0 };
-    let res = guarded(|| asefile::AsepriteFile::read(&mut rd));
-    let ws = alloc::close_window();
-    let consumed = rd.pos;
+    let (res, ws, consumed) = if flags & F_READFILE != 0 {
+        // path-based entry point: the whole file is what the reader can deliver
+        let path = format!("{}/worker-{}.ase", std::env::temp_dir().display(), std::process::id());
+        let _ = std::fs::write(&path, &data[..]);
+        alloc::open_window(flags & F_DENY != 0);
+        alloc::add_delivered(data.len() as u64);
+        let res = guarded(|| asefile::AsepriteFile::read_file(std::path::Path::new(&path)));
+        let ws = alloc::close_window();
+        let _ = std::fs::remove_file(&path);
+        (res, ws, data.len())
+    } else {
+        alloc::open_window(flags & F_DENY != 0);
+        let mut rd = CountingReader { data: &data, pos: 0 };
+        let res = guarded(|| asefile::AsepriteFile::read(&mut rd));
+        let ws = alloc::close_window();
+        let pos = rd.pos;
+        (res, ws, pos)
+    };
     let mem = json!({"peak": ws.peak, "max_req": ws.max_req, "delivered": ws.delivered, "worst_excess": ws.worst_excess, "worst_delivered": ws.worst_delivered});
     match res {
         Err((loc, msg)) => emit(json!({"phase": "done", "load": "panic", "loc": short_loc(&loc), "msg": msg, "consumed": consumed, "mem": mem})),
